@@ -31,6 +31,8 @@ structure Registry where
   isQuantityName : String → Bool := fun _ => false
   /-- `registry.substances` -/
   substance : String → Option Substance := fun _ => none
+  /-- whether `substance_from_formula(name)` succeeds (a chemical formula over the element symbols) -/
+  isFormula : String → Bool := fun _ => false
 
 namespace Registry
 
